@@ -46,6 +46,7 @@ const maxSummaryDepth = 4
 
 type retKey struct {
 	call  *ssa.Call
+	idx   int
 	truth bool
 }
 
@@ -170,20 +171,26 @@ func (s *pathSearch) cutEdge(b *ssa.BasicBlock, i int, depth int) bool {
 		}
 		cond, truth = u.X, !truth
 	}
-	h := staticFirstParty(asInstr(cond))
+	// the boolean may be one component of a tuple result: `v, ok := helper()`
+	ridx := 0
+	callV := cond
+	if ex, ok := cond.(*ssa.Extract); ok {
+		callV, ridx = ex.Tuple, ex.Index
+	}
+	h := staticFirstParty(asInstr(callV))
 	if h == nil || depth >= maxSummaryDepth {
 		return false
 	}
 	res := h.Signature.Results()
-	if res.Len() != 1 {
+	if ridx >= res.Len() || (res.Len() != 1 && callV == cond) {
 		return false
 	}
-	if bt, ok := res.At(0).Type().Underlying().(*types.Basic); !ok || bt.Kind() != types.Bool {
+	if bt, ok := res.At(ridx).Type().Underlying().(*types.Basic); !ok || bt.Kind() != types.Bool {
 		return false
 	}
-	call := cond.(*ssa.Call)
+	call := callV.(*ssa.Call)
 	activeCtx = append(activeCtx, call)
-	may := s.mayReturn(call, h, truth, depth+1)
+	may := s.mayReturn(call, h, ridx, truth, depth+1)
 	activeCtx = activeCtx[:len(activeCtx)-1]
 	return !may
 }
@@ -194,8 +201,8 @@ func asInstr(v ssa.Value) ssa.Instruction {
 }
 
 // mayReturn: the helper has an uncut path to a return that can yield `truth`.
-func (s *pathSearch) mayReturn(call *ssa.Call, h *ssa.Function, truth bool, depth int) bool {
-	k := retKey{call, truth}
+func (s *pathSearch) mayReturn(call *ssa.Call, h *ssa.Function, ridx int, truth bool, depth int) bool {
+	k := retKey{call, ridx, truth}
 	switch s.mayRet[k] {
 	case 1, 3:
 		return true
@@ -213,11 +220,11 @@ func (s *pathSearch) mayReturn(call *ssa.Call, h *ssa.Function, truth bool, dept
 		return s.cutEdge(fake, slot, depth)
 	}
 	for _, r := range Returns(h) {
-		if len(r.Results) != 1 {
+		if ridx >= len(r.Results) {
 			res = true
 			break
 		}
-		v := r.Results[0]
+		v := r.Results[ridx]
 		if bv, isConst := BoolConst(v); isConst {
 			if bv != truth {
 				continue
